@@ -10,7 +10,7 @@
    - pinned: file the packet anyway - which re-creates the frames entry of a terminated process.
    Accepting a process that has already terminated registers an exit hook that runs at once. *)
 From Coq Require Import List Arith Bool Lia.
-From Uf Require Import Runtime.Agent.
+From Uf Require Import Runtime.Agent Runtime.AgentProofs.
 Import ListNotations.
 
 Inductive pev :=
@@ -280,3 +280,9 @@ Proof.
   unfold view in V. injection V as V1' V2' _.
   split; auto. unfold frames_for. rewrite V2'. reflexivity.
 Qed.
+
+Theorem live_process_frames pre post p x :
+  untouched p pre -> no_exit p post ->
+  frames_of x (frames_for p (g_run true (pre ++ PAccept p :: post)))
+  = zipl (ins_of x (fires_of p post)) (outs_of x (fires_of p post)).
+Proof. intros Hu Hn. destruct (live_frames pre post p Hu Hn) as [E _]. rewrite E. apply frames_zip. Qed.
